@@ -187,7 +187,7 @@ pub fn shard_run(tier: &str, seed: u64, replay_case: Option<usize>, shard: Shard
     let thorough = tier == "thorough";
     let mut out = ShardOut::default();
     let mut cov = Cov::default();
-    let n_hist = if thorough { 600 } else { 40 };
+    let n_hist = if thorough { 400 } else { 40 };
     let vfs_ok = crate::vfs::register().is_ok();
     let mut vcase = 0usize;
     let prof = GenProfile { min_clients: 2, max_clients: 2, min_ops: 10, max_ops: if thorough { 26 } else { 20 }, valid_add_pct: 75, w_kind: [40, 14, 26, 15, 5], big_payload_pct: 8, ..Default::default() };
